@@ -757,7 +757,12 @@ func secondRunC12(dir string, c *Case) *Violation {
 		ops[i] = &cp
 	}
 	var last1, last2 string
-	c2 := replayOps(dir, ops, nil)
+	e2 := &Env{dir: dir, faultCtl: anyFault(ops)}
+	if holdsMegabyteObject(ops) {
+		// the second run also differs in how long short and long reads take while signing
+		e2.wrap = func(rw sif.ReadWriter) sif.ReadWriter { return slowSmallReads{rw, &e2.signing} }
+	}
+	c2 := replayOpsOn(e2, ops, nil)
 	for _, l := range c.Impl {
 		if strings.HasPrefix(l, "file ") {
 			last1 = l
@@ -929,4 +934,23 @@ func corpusSeeds(prop string) []corpusCase {
 		out = append(out, c)
 	}
 	return out
+}
+
+func holdsMegabyteObject(ops []*Op) bool {
+	signs, big := false, false
+	for _, op := range ops {
+		switch op.Kind {
+		case "sign":
+			signs = true
+		case "add":
+			big = big || op.DI.Data.Len >= 1<<20
+		case "create":
+			for _, c := range op.COpts {
+				for _, d := range c.DIs {
+					big = big || d.Data.Len >= 1<<20
+				}
+			}
+		}
+	}
+	return signs && big
 }
